@@ -50,6 +50,104 @@ def same_params(r, sr, sw, ch):
 # C16
 
 
+def c16_lengths(task):
+    """len / duration / negative bounds for every length 0..64 (and a few around 1000) at audio rates."""
+    sr = task
+    AR = lib()["AR"]
+    cov = {"evaluations": 0, "distinct_nontrivial": 0, "samples": []}
+    viol = []
+    sw, ch = 2, 1
+    base = content(64, sw, ch)
+    for n in list(range(0, 65)) + [999, 1000, 1001, 1234, 1235]:
+        data = (base * (n // 64 + 1))[: n * sw * ch]
+        smp = samples_of(data, sw, ch)
+        r = AR(data, sr, sw, ch)
+        cov["evaluations"] += 1
+        msg = None
+        if len(r) != n or r.len != n:
+            msg = "len() is %r for %d samples at %d Hz" % (len(r), n, sr)
+        elif abs(r.duration - n / sr) > 1e-12:
+            msg = "duration %r for %d samples at %d Hz" % (r.duration, n, sr)
+        else:
+            for a, b in ((-1, None), (-2, None), (None, -1), (-n + 1 if n > 1 else -1, -1), (1, -1), (-3, -1)):
+                got = r[a:b]
+                if got.data != b"".join(smp[a:b]) or len(got) != len(smp[a:b]):
+                    msg = "region[%r:%r] of %d samples at %d Hz holds %d samples, list slicing gives %d" % (a, b, n, sr, len(got), len(smp[a:b]))
+                    break
+        if n:
+            cov["distinct_nontrivial"] += 1
+        if msg and len(viol) < 5:
+            viol.append(("length sr=%d n=%d" % (sr, n), msg, {"kind": "c16len2", "sr": sr}))
+    cov["samples"].append({"rate": sr, "lengths": "0..64, 999..1001, 1234, 1235"})
+    return {"cov": cov, "viol": viol}
+
+
+def c16_two_regions(rep):
+    """Views of two different regions used in one expression / kept in variables: each view keeps slicing its own region."""
+    AR = lib()["AR"]
+    a = AR(content(8, 2, 1), 8, 2, 1)
+    b = AR(content(3, 1, 2, salt=1), 4, 1, 2)
+    sa, sb = samples_of(a.data, 2, 1), samples_of(b.data, 1, 2)
+    cases = [
+        ("a.sec[:b.sec.len]", lambda: a.seconds[: b.seconds.len].data, b"".join(sa[: round(0.75 * 8)])),
+        ("a.ms[b.ms.len // 3:]", lambda: a.millis[b.millis.len // 3 :].data, b"".join(sa[int(0.25 * 8) :])),
+        ("b.sec[:a.sec.len]", lambda: b.seconds[: a.seconds.len].data, b"".join(sb[: round(1.0 * 4)])),
+        ("len(a.ms) after b.ms", lambda: (b.millis, len(a.millis))[1], 1000),
+        ("a.sec.len after b.sec", lambda: (b.seconds.len, a.seconds.len)[1], 1.0),
+    ]
+    va, vb = a.seconds, b.seconds
+    ma, mb = a.millis, b.millis
+    cases += [("kept view of a after touching b", lambda: (vb[0:0.5], va[0.25:0.5])[1].data, b"".join(sa[2:4])),
+              ("kept millis view of b after touching a", lambda: (ma[0:500], mb[250:])[1].data, b"".join(sb[1:])),
+              ("kept view len", lambda: (vb.len, va.len)[1], 1.0)]
+    for name, fn, want in cases:
+        rep.add("evaluations")
+        try:
+            got = fn()
+            msg = None if got == want else "%s gives %r, expected %r" % (name, got.hex() if isinstance(got, bytes) else got,
+                                                                          want.hex() if isinstance(want, bytes) else want)
+        except Exception as exc:
+            msg = "%s raised %r" % (name, exc)
+        if msg:
+            rep.violation("two-regions " + name, msg, {"kind": "c16two"})
+
+
+def c16_numpy_bounds(rep):
+    """Bounds given as numpy scalars: either rejected with TypeError or treated exactly like the equal built-in number."""
+    import numpy as np
+
+    AR = lib()["AR"]
+    r = AR(big_content(300, 2, 1), 8, 2, 1)
+    smp = samples_of(r.data, 2, 1)
+    for name, bound in (("uint8 200", np.uint8(200)), ("int8 -3", np.int8(-3)), ("int16 250", np.int16(250)), ("int64 7", np.int64(7)),
+                        ("uint16 299", np.uint16(299))):
+        for which in ("start", "stop"):
+            rep.add("evaluations")
+            try:
+                got = r[bound:] if which == "start" else r[:bound]
+                want = b"".join(smp[int(bound):] if which == "start" else smp[: int(bound)])
+                msg = None if got.data == want else "region[%s %s] holds %d samples, the equal built-in bound gives %d" % (
+                    which, name, len(got), len(want) // 2)
+            except TypeError:
+                msg = None
+            except Exception as exc:
+                msg = "region[%s %s] raised %r (neither TypeError nor a slice)" % (which, name, exc)
+            if msg:
+                rep.violation("numpy bound %s %s" % (which, name), msg, {"kind": "c16np"})
+    for name, bound in (("float32 0.5", np.float32(0.5)), ("float64 0.25", np.float64(0.25)), ("int32 1", np.int32(1))):
+        rep.add("evaluations")
+        try:
+            got = r.seconds[bound:]
+            want = b"".join(smp[int(float(bound) * 8):])
+            msg = None if got.data == want else "seconds[%s:] holds %d samples, expected %d" % (name, len(got), len(want) // 2)
+        except TypeError:
+            msg = None
+        except Exception as exc:
+            msg = "seconds[%s:] raised %r" % (name, exc)
+        if msg:
+            rep.violation("numpy seconds bound %s" % name, msg, {"kind": "c16np"})
+
+
 def c16_samples(task):
     sw, ch, nmax = task
     AR = lib()["AR"]
@@ -628,6 +726,49 @@ def c17_misc(rep):
                 rep.violation("silence d=%r sr=%d sw=%d ch=%d" % (d, sr, sw, ch),
                               "make_silence(%r) holds %d bytes, round(d*rate)=%d samples" % (d, len(s.data), n),
                               {"kind": "c17sil", "d": d, "sr": sr, "sw": sw, "ch": ch})
+    # join over one-shot iterables (generator, iterator, map) equals join over the list
+    some = [x for x in P if (x.sr, x.sw, x.ch) == (8, 2, 1)][:5]
+    sil = core.make_silence(2 / 8, 8, 2, 1)
+    want = sil.data.join(x.data for x in some)
+    for name, it in (("generator", (x for x in some)), ("iter", iter(some)), ("map", map(lambda x: x, some)), ("tuple", tuple(some))):
+        rep.add("evaluations")
+        try:
+            got = sil.join(it).data
+        except Exception as exc:
+            got = "raised %r" % (exc,)
+        if got != want:
+            rep.violation("join over " + name, "join over a %s gives %r, over the list %d bytes" % (
+                name, len(got) if isinstance(got, bytes) else got, len(want)), {"kind": "c17misc"})
+    # every division returns a fresh, correct list - whatever was done to an earlier result
+    r = AR(content(9, 2, 1), 8, 2, 1)
+    for mutate in ("pop", "reverse", "clear", "append"):
+        rep.add("evaluations")
+        first = r / 4
+        getattr(first, mutate)(*((r,) if mutate == "append" else ()))
+        again = AR(bytes(r.data), 8, 2, 1) / 4
+        second = r / 4
+        for res in (again, second):
+            if len(res) != 4 or b"".join(x.data for x in res) != r.data:
+                rep.violation("division after %s" % mutate, "after %s() on an earlier result, r/4 gives %d pieces holding %d bytes" % (
+                    mutate, len(res), len(b"".join(x.data for x in res))), {"kind": "c17misc"})
+                break
+    rep.add("evaluations")
+    try:
+        r / 4.0
+        rep.violation("division by float after int", "r / 4.0 accepted after r / 4", {"kind": "c17misc"})
+    except TypeError:
+        pass
+    # augmented assignment builds a new region: other references to the left operand see no change
+    rep.add("evaluations")
+    parts = [AR(content(2, 2, 1, k), 8, 2, 1) for k in range(3)]
+    keep = [bytes(x.data) for x in parts]
+    acc = parts[0]
+    alias = acc
+    for x in parts[1:]:
+        acc += x
+    if [x.data for x in parts] != keep or alias.data != keep[0] or acc.data != b"".join(keep) or sum(parts).data != b"".join(keep):
+        rep.violation("augmented assignment", "acc += r altered a region that is also referenced elsewhere (parts now %r bytes)" % (
+            [len(x.data) for x in parts],), {"kind": "c17misc"})
     # + with a non-region
     rep.add("evaluations")
     try:
@@ -887,6 +1028,73 @@ def c18_buffers(rep):
     shutil.rmtree(d, ignore_errors=True)
 
 
+def c18_more(rep):
+    import numpy as np
+    from auditok.io import to_file
+
+    L = lib()
+    AR, auditok = L["AR"], L["auditok"]
+    # the export reflects the bytes, whatever was done to an earlier export (of this region or an equal one)
+    data = content(6, 2, 2)
+    r = AR(data, 10, 2, 2)
+    want = np.array(decode(data, 2, 2), dtype=float)
+    for how in ("numpy", "asarray", "equal region"):
+        rep.add("evaluations")
+        first = r.numpy()
+        try:
+            first *= 0
+            first += 7
+        except Exception:
+            pass
+        second = r.numpy() if how == "numpy" else (np.asarray(r) if how == "asarray" else AR(bytes(data), 10, 2, 2).numpy())
+        if second.shape != want.shape or not (second == want).all():
+            rep.violation("numpy export after mutation (%s)" % how, "after an earlier export was modified in place, %s gives %r" % (
+                how, second.tolist()), {"kind": "c18more"})
+    # skips shorter than half a sample, empty files, on lazily read files
+    d = os.path.join(common.scratch_dir(), "c18more")
+    os.makedirs(d, exist_ok=True)
+    for sr in (10, 16000):
+        for n in (0, 5):
+            dat = content(n, 2, 1)
+            wavf, rawf = os.path.join(d, "m.wav"), os.path.join(d, "m.raw")
+            to_file(dat, wavf, sr=sr, sw=2, ch=1)
+            to_file(dat, rawf)
+            for skip in (0.3 / sr, 0.49 / sr, 2e-5 if sr == 16000 else 0.04, 1 / sr):
+                for mr in (None, 2 / sr):
+                    for kind in ("wav_lazy", "raw_lazy", "wav"):
+                        rep.add("evaluations")
+                        a = round(skip * sr)
+                        smp = samples_of(dat, 2, 1)
+                        exp = b"".join(smp[a:] if mr is None else smp[a : a + round(mr * sr)])
+                        try:
+                            if kind == "raw_lazy":
+                                got = auditok.load(rawf, skip=skip, max_read=mr, large_file=True, sr=sr, sw=2, ch=1)
+                            else:
+                                got = auditok.load(wavf, skip=skip, max_read=mr, large_file=kind.endswith("lazy"))
+                            msg = None if got.data == exp else "load(skip=%r, max_read=%r) on %s holds %s, expected %s" % (skip, mr, kind, got.data.hex(), exp.hex())
+                        except Exception as exc:
+                            msg = "load(skip=%r, max_read=%r) on %s (%d samples) raised %r" % (skip, mr, kind, n, exc)
+                        if msg:
+                            rep.violation("load tiny skip sr=%d n=%d skip=%r mr=%r %s" % (sr, n, skip, mr, kind), msg, {"kind": "c18more"})
+    # file names: every placeholder is filled from the region's own start / end / duration
+    for start, n in ((0.1, 2), (0.7, 1), (0.3, 3), (1.455, 10)):
+        reg = AR(content(n, 2, 1), 10, 2, 1, start)
+        for tpl in ("n_{duration}.wav", "n_{start}_{end}.wav", "n_{end}_{duration}.raw", "n_{duration:.20f}.wav"):
+            rep.add("evaluations")
+            want_name = os.path.join(d, tpl).format(start=reg.start, end=reg.end, duration=reg.duration)
+            try:
+                got_name = reg.save(os.path.join(d, tpl))
+                ok = got_name == want_name and os.path.exists(want_name)
+                msg = None if ok else "save(%r) with start=%r wrote %r, placeholders give %r" % (tpl, start, os.path.basename(got_name), os.path.basename(want_name))
+            except Exception as exc:
+                msg = "save(%r) raised %r" % (tpl, exc)
+            if msg:
+                rep.violation("save name %s start=%r n=%d" % (tpl, start, n), msg, {"kind": "c18more"})
+    import shutil
+
+    shutil.rmtree(d, ignore_errors=True)
+
+
 def c18_numpy(rep):
     AR = lib()["AR"]
     for sw in (1, 2, 4):
@@ -927,10 +1135,13 @@ def run(prop, tier):
         rep = common.Report(prop, tier, "bounded-exhaustive enumeration of regions x slice bounds against Python list slicing "
                             "of the sample sequence; exact rational oracle for the seconds/millis views")
         c16_type_errors(rep)
+        c16_two_regions(rep)
+        c16_numpy_bounds(rep)
         c16_huge(rep)
         nmax = 5 if quick else 12
         tasks = [("s", (sw, ch, nmax)) for sw, ch in FORMATS5] + [("c", (sw, ch)) for sw, ch in FORMATS5]
         tasks += [("L", (sw, ch)) for sw, ch in ((2, 2), (1, 3), (4, 1))]
+        tasks += [("n", sr_) for sr_ in (7, 10, 100, 8000, 11025, 16000, 22050, 44100, 48000, 96000)]
         rates = [4, 8, 16, 10, 44100] if quick else [4, 8, 16, 32, 10, 44100, 3, 7, 100, 11025, 22050, 48000, 96000]
         tasks += [("v", (sr, tier)) for sr in rates]
         for part in common.pmap(_c16_dispatch, tasks):
@@ -956,6 +1167,7 @@ def run(prop, tier):
         c18_numpy(rep)
         c18_numpy_large(rep)
         c18_buffers(rep)
+        c18_more(rep)
         tasks = [(sw, ch, sr, tier) for sw in (1, 2, 4) for ch in (1, 2, 3) for sr in ((10, 16000) if not quick else (10,))]
         if quick:
             tasks += [(2, 1, 16000, tier), (4, 2, 16000, tier)]
@@ -980,6 +1192,8 @@ def _c16_dispatch(t):
         return c16_chained(t[1])
     if t[0] == "L":
         return c16_large(t[1])
+    if t[0] == "n":
+        return c16_lengths(t[1])
     return c16_samples(t[1]) if t[0] == "s" else c16_views(t[1])
 
 
@@ -1002,6 +1216,15 @@ def replay(case):
             if c.get("a") == case["a"] and c.get("b") == case["b"] and c.get("n") == case["n"] and c["kind"] == k:
                 return msg
         return part["viol"][0][1] if part["viol"] else None
+    if k == "c16len2":
+        part = c16_lengths(case["sr"])
+        return part["viol"][0][1] if part["viol"] else None
+    if k == "c16two":
+        c16_two_regions(rep)
+        return rep.violations[0][1] if rep.violations else None
+    if k == "c16np":
+        c16_numpy_bounds(rep)
+        return rep.violations[0][1] if rep.violations else None
     if k == "c16H":
         c16_huge(rep)
         return rep.violations[0][1] if rep.violations else None
@@ -1026,6 +1249,8 @@ def replay(case):
     elif k == "c18":
         part = c18_work((case["sw"], case["ch"], case["sr"], "quick"))
         return part["viol"][0][1] if part["viol"] else None
+    elif k == "c18more":
+        c18_more(rep)
     elif k == "c18npL":
         c18_numpy_large(rep)
     elif k == "c18buf":
